@@ -494,6 +494,27 @@ class SxInt:
     __int__ = __index__
 
     # ---- bit operations (BV flavour only)
+    def _int_bitop(s, o, op):
+        """& | ^ of a non-negative mathematical integer with a non-negative constant: split x = hi*2^m + lo with
+        m = bit length of the constant (definitional), do the operation on lo as an m-bit vector"""
+        c = o if isinstance(o, int) else (o.lo if isinstance(o, SxInt) and o.lo is not None and o.lo == o.hi else None)
+        x = s
+        if not isinstance(s, SxInt) or s.is_bv:
+            return None
+        if c is None or c < 0:
+            raise Unsupported("bit operation between mathematical integers")
+        if bool(x < 0):
+            raise Unsupported("bit operation on a negative mathematical integer")
+        m = max(c.bit_length(), 1)
+        hi, lo = divmod(x, 1 << m)
+        lob = z3.Int2BV(lo.e, m)
+        cb = z3.BitVecVal(c, m)
+        r = {"and": lob & cb, "or": lob | cb, "xor": lob ^ cb}[op]
+        ri = SxInt(z3.BV2Int(r), 0, (1 << m) - 1)
+        if op == "and":
+            return ri
+        return hi * (1 << m) + ri
+
     def _bitpair(s, o):
         b = s._co(o)
         if b is None:
@@ -504,6 +525,8 @@ class SxInt:
         return s, b, w
 
     def __and__(s, o):
+        if not s.is_bv and isinstance(o, (int, SxInt)):
+            return s._int_bitop(o, "and")
         a, b, w = s._bitpair(o)
         if a is None:
             return NotImplemented
@@ -519,6 +542,8 @@ class SxInt:
     __rand__ = __and__
 
     def __or__(s, o):
+        if not s.is_bv and isinstance(o, (int, SxInt)):
+            return s._int_bitop(o, "or")
         a, b, w = s._bitpair(o)
         if a is None:
             return NotImplemented
@@ -532,6 +557,8 @@ class SxInt:
     __ror__ = __or__
 
     def __xor__(s, o):
+        if not s.is_bv and isinstance(o, (int, SxInt)):
+            return s._int_bitop(o, "xor")
         a, b, w = s._bitpair(o)
         if a is None:
             return NotImplemented
@@ -1353,6 +1380,34 @@ class SxStr:
                 n += 1
         return n
 
+    def translate(s, table):
+        out = []
+        for i in s._resolve():
+            if isinstance(i, str):
+                out.extend(i.translate(table))
+                continue
+            poss = i.possible()
+            if poss is not None:
+                if not any(ord(ch) in table for ch in poss):
+                    out.append(i)
+                    continue
+                imgs = [ch.translate(table) for ch in i.alphabet]
+                if all(len(x) == 1 for x in imgs):
+                    out.append(SxChar.of("".join(imgs), i.idx) if len(set(imgs)) == len(imgs) else SxChar(None, _img_code(i, imgs)))
+                    continue
+                raise Unsupported("translate that deletes or expands characters of a symbolic character")
+            code = i.idx
+            r = code
+            for kk, vv in table.items():
+                if vv is None or (isinstance(vv, str) and len(vv) != 1):
+                    if bool(code == kk):
+                        raise Unsupported("translate that deletes or expands a symbolic character")
+                    continue
+                tv = vv if isinstance(vv, int) else ord(vv)
+                r = sym_ite(code == kk, tv, r)
+            out.append(SxChar(None, r))
+        return _mkstr(out)
+
     def rfind(s, sub):
         if not isinstance(sub, str) or len(sub) != 1:
             raise Unsupported("rfind variant")
@@ -1419,6 +1474,13 @@ class SxStr:
 
     def __format__(s, spec):
         return "<sym>"
+
+
+def _img_code(ch, imgs):
+    r = ord(imgs[-1])
+    for j in range(len(imgs) - 2, -1, -1):
+        r = sym_ite(ch.idx == j, ord(imgs[j]), r)
+    return r
 
 
 def _unsup(msg):
